@@ -20,11 +20,17 @@ func init() {
 }
 
 func unitOf(n int) time.Duration {
-	// the abstract unit is irrelevant to the properties: alternate between 1 ms and 1 s
-	if n%2 == 0 {
+	// the abstract unit is irrelevant to the properties: 1 ms, 1 s, and two units below the millisecond (a quarter of a
+	// millisecond; one 30 fps frame, which is not a whole number of milliseconds) - the list holds time.Durations
+	switch n % 4 {
+	case 0:
 		return time.Millisecond
+	case 1:
+		return time.Second
+	case 2:
+		return 250 * time.Microsecond
 	}
-	return time.Second
+	return time.Second / 30
 }
 
 // cmdOps replays TLC-generated cases (ndjson) on the real code and writes the observed events.
@@ -91,7 +97,11 @@ func cmdOpsRand(args []string) error {
 	enc := json.NewEncoder(bw)
 	for i := 0; i < *num; i++ {
 		c := randCase(r, *op, *maxn)
-		for _, ev := range opsx.Exec(*n0+i, c, time.Millisecond, i%2 == 0) {
+		ru := time.Millisecond
+		if c.Op != "force" && i%3 == 2 {
+			ru = 250 * time.Microsecond
+		}
+		for _, ev := range opsx.Exec(*n0+i, c, ru, i%2 == 0) {
 			if err := enc.Encode(ev); err != nil {
 				return err
 			}
